@@ -582,8 +582,8 @@ def State.exec (c : Cfg) (s : State) : Op → Except Err State
         | .error e => .error e
         | .ok (vdst, r2) =>
           let s1 := (((s.setVS src vsrc).setVS dst vdst).addGain d r1).addGain d r2
-          .ok { s1 with redel := if s1.redel.contains (d, src, dst, s.height) then s1.redel
-                                 else s1.redel ++ [(d, src, dst, s.height)] }
+          -- `Redelegation.AddEntry` always appends (only `UnbondingDelegation.AddEntry` merges entries of one block)
+          .ok { s1 with redel := s1.redel ++ [(d, src, dst, s.height)] }
   | .withdraw d v =>
     if !(s.okAcc d && s.okVal v) then .error .badArgs else
     match (s.vs v).withdrawMsg s.height d with
